@@ -146,7 +146,17 @@ static void check(const Case &cc) {
     run(c, false, plain, skip);
     CHECK(base == plain, "differs-from-default-allocator", "%s gives a different result with the custom allocator (codes %u vs %u, %zu vs %zu output slots)", fn, base.code, plain.code, base.out.size(), plain.out.size());
     // step 2: every allocation index, single and sticky failure
-    for (long n = 1; n <= N; n++)
+    // complete over the allocation index for N <= 48; beyond that (flood fills around many pentagons: hundreds of nested allocations) the first 16,
+    // the last 16 and 16 evenly spaced indexes — a complete enumeration of such a case alone took minutes
+    std::vector<long> idxs;
+    if (N <= 48) for (long n = 1; n <= N; n++) idxs.push_back(n);
+    else {
+        for (long n = 1; n <= 16; n++) idxs.push_back(n);
+        for (long q = 1; q <= 16; q++) idxs.push_back(16 + q * (N - 32) / 17);
+        for (long n = N - 15; n <= N; n++) idxs.push_back(n);
+        COUNT("fault_points_sampled(N>48)");
+    }
+    for (long n : idxs)
         for (int sticky = 0; sticky < 2; sticky++) {
             Result r;
             am::M().reset(n, sticky != 0);
@@ -178,7 +188,7 @@ static void check(const Case &cc) {
     if (c.fn >= POLYFILL) { bool bad = false; auto scan = [&](const std::vector<LatLng> &l) { for (auto &v : l) if (!std::isfinite(v.lat) || !std::isfinite(v.lng) || fabs(v.lat) > 10 || fabs(v.lng) > 10) bad = true; }; scan(c.g.outer); for (auto &h : c.g.holes) scan(h); if (bad) COUNT("error_path.malformed_coordinate"); }
     if (c.fn == COMPACT && base.code == E_SUCCESS) { bool toBase = false; for (uint64_t x : base.out) if (x && ref::res_of(x) == 0) toBase = true; if (toBase) COUNT("compact.reaches_resolution_0"); }
     static Counter faults("fault_points_enumerated");
-    faults.n += (uint64_t)(2 * N);
+    faults.n += (uint64_t)(2 * idxs.size());
 }
 
 // make a valid cell invalid in one of the ways the traversal code has to survive: base cell >= 122, digit 7 inside the resolution,
@@ -294,6 +304,7 @@ static Case draw() {
                 if (!loop.empty()) {
                     LatLng &v = loop[(size_t)ri(0, (int)loop.size() - 1)];
                     (rbool() ? v.lat : v.lng) = BAD[ri(0, 4)];
+                    c.res = std::min(c.res, 2);  // work bound: a bounding box reaching lat 1e19 at a fine resolution keeps the fills busy for minutes
                 }
             }
             break;
